@@ -266,12 +266,12 @@ Definition rt_un (o : unop) (t : ity) (a : Z) : rres :=
 (* ---------------------------------------------------------------- nested expressions *)
 
 (* rt_bin above is the value of `l o r` once it has been STORED in a variable of its Nelua type
-   (or passed as an argument): the C initialisation converts.  When the result is consumed
-   directly by another operator no conversion happens unless the emitter writes one:
-   operator_binary_op emits `(T)(l op r)` only for two run-time operands of different signedness,
-   helpers return T, everything else is the bare C expression, whose C type is the usual
-   arithmetic conversion of the operand C types.  rt_bin_c gives the C type and value of the
-   emitted expression for operands of Nelua types lt rt, C types cl cr, values a b. *)
+   (or passed as an argument).  When the result is consumed directly by another operator, what
+   counts is the C type and value of the emitted expression: operator_binary_op emits
+   `(T)(l op r)` for two run-time operands of different signedness and (since 1d3f0fa) whenever
+   the result type T is narrower than C int; helpers return T; otherwise the bare C expression,
+   whose C type is the usual arithmetic conversion of the operand C types.  rt_bin_c gives the C
+   type and value for operands of Nelua types lt rt, C types cl cr, values a b. *)
 Definition plain_c (o : binop) (cl cr : ity) (a b : Z) : option Z :=
   match o with
   | Badd => c_add Gnu cl cr a b | Bsub => c_sub Gnu cl cr a b | Bmul => c_mul Gnu cl cr a b
@@ -282,42 +282,47 @@ Definition plain_c (o : binop) (cl cr : ity) (a b : Z) : option Z :=
   | _ => None
   end.
 
+(* a boolean has the C type bool/int: both promote to int *)
 Definition of_stored (r : rres) : option (ity * Z) :=
-  match r with Rval t v => Some (t, v) | Rbool b => Some (U8, zb b) | _ => None end.
+  match r with Rval t v => Some (t, v) | Rbool b => Some (I32, zb b) | _ => None end.
+
+Definition uses_helper (o : binop) (lt rt : ity) : bool :=
+  is_shiftop o || (match o with Bidiv | Bmod => sgn lt || sgn rt | _ => false end) ||
+  (is_cmpop o && mixed lt rt).
 
 Definition rt_bin_c (o : binop) (lt rt cl cr : ity) (a b : Z) : option (ity * Z) :=
   let t := rt_type o lt rt in
-  let uses_helper :=
-    is_shiftop o || (match o with Bidiv | Bmod => sgn lt || sgn rt | _ => false end) ||
-    (is_cmpop o && mixed lt rt) in
-  if uses_helper then
+  if uses_helper o lt rt then
     (* the arguments are converted to the helper's parameter types by the C call *)
     of_stored (rt_bin o lt rt a b)
   else if is_cmpop o then omap (fun v => (I32, v)) (plain_c o cl cr a b)
-  else if mixed lt rt then
-    match o with
-    | Btdiv | Btmod => of_stored (rt_bin o lt rt a b)          (* ((T)l / (T)r) *)
-    | _ => omap (fun v => (t, v)) (obind (plain_c o cl cr a b) (c_conv Gnu t))   (* (T)(l op r) *)
-    end
+  else if mixed lt rt && (match o with Btdiv | Btmod => true | _ => false end) then
+    (* ((T)l / (T)r): computed in the promoted type of T, NOT cast back *)
+    omap (fun v => (c_arith_type t t, v))
+         (obind (c_conv Gnu t a) (fun a' => obind (c_conv Gnu t b) (plain_c o t t a')))
+  else if mixed lt rt || (bits t <? 32) then
+    omap (fun v => (t, v)) (obind (plain_c o cl cr a b) (c_conv Gnu t))   (* (T)(l op r) *)
   else omap (fun v => (c_arith_type cl cr, v)) (plain_c o cl cr a b).
 
-(* `(x o1 y) o2 z`, all three operands at run time, the outer result stored *)
+(* the outer operator applied to a left operand of Nelua type ti, C type ci, value v; result stored *)
+Definition rt_outer (o2 : binop) (ti t3 ci : ity) (v c : Z) : rres :=
+  match rt_bin_c o2 ti t3 ci t3 v c with
+  | None => Rundef
+  | Some (_, w) =>
+      if is_cmpop o2 then Rbool (negb (w =? 0))
+      else match c_conv Gnu (rt_type o2 ti t3) w with Some w' => Rval (rt_type o2 ti t3) w' | None => Rundef end
+  end.
+
+(* `(x o1 y) o2 z`, all three operands at run time *)
 Definition rt_nested_l (o1 o2 : binop) (t1 t2 t3 : ity) (a b c : Z) : rres :=
   match rt_bin_c o1 t1 t2 t1 t2 a b with
   | None => Rundef
-  | Some (c1, v1) =>
-      let ti := rt_type o1 t1 t2 in
-      match rt_bin_c o2 ti t3 c1 t3 v1 c with
-      | None => Rundef
-      | Some (_, v) =>
-          if is_cmpop o2 then Rbool (negb (v =? 0))
-          else match c_conv Gnu (rt_type o2 ti t3) v with Some v' => Rval (rt_type o2 ti t3) v' | None => Rundef end
-      end
+  | Some (c1, v1) => rt_outer o2 (rt_type o1 t1 t2) t3 c1 v1 c
   end.
 
 (* the same with the inner result stored first: `local t = x o1 y; t o2 z` *)
 Definition rt_stored_l (o1 o2 : binop) (t1 t2 t3 : ity) (a b c : Z) : rres :=
   match rt_bin o1 t1 t2 a b with
-  | Rval ti v1 => rt_bin o2 ti t3 v1 c
+  | Rval ti v1 => rt_outer o2 ti t3 ti v1 c
   | _ => Rundef
   end.
